@@ -21,7 +21,7 @@ import (
 func runClientScenario(t *testing.T, rec *recorder, cfg *sysCfg, seed uint64, scratch string, rep *vsup.Report) {
 	rng := vsup.NewRng(seed)
 	cfg.client = true
-	rec.emit("Reset", "cfg", "client "+cfg.String(), "et", cfg.et, "loops", cfg.loops, "seed", int(seed%1000000))
+	rec.emit("Reset", "cfg", "client "+cfg.String(), "et", cfg.et, "loops", cfg.loops, "reuseport", true, "ticker", cfg.ticker, "client", true, "seed", int(seed%1000000))
 	h := &vhandler{rec: rec, cfg: cfg, booted: make(chan struct{}), raceMode: rec.muted}
 	opts := []Option{WithNumEventLoop(cfg.loops), WithTicker(cfg.ticker), WithReadBufferCap(cfg.readCap), WithWriteBufferCap(cfg.writeCap),
 		WithLogger(nullLogger{}), WithLockOSThread(false)}
